@@ -68,10 +68,8 @@ class Ctx:
         self.instances.append(Instance(rule, key, "violation", diagnosis, loc, extra))
 
     def floor(self, rule, what, measured, minimum):
+        # evaluated after the rules have run: an unmet floor is an ANALYSIS-ERROR only when no violation explains it
         self.floors.append((rule, what, measured, minimum))
-        if measured < minimum:
-            raise AnalysisError("instance floor not met for %s: %s = %d < %d (rule went blind or code moved)"
-                                % (rule, what, measured, minimum))
 
     def require(self, cond, msg):
         if not cond:
@@ -143,6 +141,7 @@ def main(argv=None):
     ap.add_argument("--replay", default=None)
     ap.add_argument("--repo", default=None)
     ap.add_argument("--no-evidence", action="store_true")
+    ap.add_argument("--no-fixture", action="store_true")
     args = ap.parse_args(argv)
     prop = args.prop.upper()
     seed = int(os.environ.get("VERIF_SEED", "0") or 0)
@@ -156,7 +155,7 @@ def main(argv=None):
     try:
         prog, th, fdir = load_program(repo, all_targets=False)
         ctx = Ctx(prop, args.tier, seed, prog, th, fdir)
-        pc = positive_control(mod, args.tier, seed)
+        pc = {"skipped": True} if args.no_fixture else positive_control(mod, args.tier, seed)
         run_rules(mod, ctx)
         extra = {}
         if args.tier == "thorough" and hasattr(mod, "thorough"):
@@ -169,13 +168,24 @@ def main(argv=None):
             except AnalysisError:
                 raise
     except AnalysisError as e:
-        print("ANALYSIS-ERROR property=%s reason=%s" % (prop, str(e).replace("\n", " | ")[:1500]))
-        return 2
+        # an analysis error after a violation has already been established does not mask the violation
+        if "ctx" in locals() and any(i.verdict == "violation" for i in ctx.instances):
+            ctx.note("analysis stopped early: %s" % str(e)[:300])
+            extra = {}
+            pc = locals().get("pc", {"skipped": True})
+        else:
+            print("ANALYSIS-ERROR property=%s reason=%s" % (prop, str(e).replace("\n", " | ")[:1500]))
+            return 2
     except Exception:
         tb = traceback.format_exc()
         print("ANALYSIS-ERROR property=%s reason=internal error: %s" % (prop, tb.replace("\n", " | ")[-1500:]))
         return 2
 
+    unmet = [(r, w, m, mn) for (r, w, m, mn) in ctx.floors if m < mn]
+    if unmet and not any(i.verdict == "violation" for i in ctx.instances):
+        r, w, m, mn = unmet[0]
+        print("ANALYSIS-ERROR property=%s reason=instance floor not met for %s: %s = %d < %d (rule went blind or code moved)" % (prop, r, w, m, mn))
+        return 2
     opened, fixed = load_known(prop)
     viol = []
     known_printed = []
